@@ -57,6 +57,9 @@ def G(mod, name, kind="func"):
     return ("global", f"{mod}:{name}", kind)
 
 
+_ROW_WRAPPERS = (("builtin", "list"), ("builtin", "tuple"), ("ext", "numpy.array"), ("ext", "numpy.asarray"), ("ext", "numpy.stack"), ("ext", "numpy.vstack"))
+
+
 class C09:
     def __init__(self, ctx: Ctx):
         self.ctx = ctx
@@ -71,18 +74,47 @@ class C09:
                 if tab not in m.defs:
                     continue
                 _, node = ctx.index.need_assign(modname, tab)
+                rm = m  # the module whose names the rows are written in
+                for _ in range(4):  # a table bound to a shared table of another module (`RUN_METRICS = common.ACCURACY_METRICS`)
+                    if not isinstance(node, (ast.Name, ast.Attribute)):
+                        break
+                    sy_ = ctx.index.resolve_expr(rm, node)
+                    if sy_ is None or sy_.kind != "assign" or sy_.module is None or getattr(sy_.node, "value", None) is None:
+                        break
+                    rm, node = sy_.module, sy_.node.value
+                if isinstance(node, ast.BinOp) and isinstance(node.op, ast.Add) and all(isinstance(x, (ast.Tuple, ast.List)) for x in (node.left, node.right)):
+                    node = ast.copy_location(ast.Tuple(elts=list(node.left.elts) + list(node.right.elts), ctx=ast.Load()), node)
                 if not isinstance(node, (ast.Tuple, ast.List)):
                     ctx.undec("R09.1", f"{m.relpath} {tab}", "table is not a literal tuple/list")
                     continue
                 seen = {}
                 if not node.elts:
                     ctx.ok("R09.1", f"{m.relpath}:{node.lineno} {tab}", "empty table")
-                for i, row in enumerate(node.elts):
+
+                def rows_of(nd, mod_, depth=0):
+                    """the rows of a table display, `*OTHER_TABLE` entries spliced in (each row with the module its names are written in)"""
+                    out_ = []
+                    for r_ in nd.elts:
+                        if isinstance(r_, ast.Starred) and depth < 4:
+                            v_, vm_ = r_.value, mod_
+                            for _ in range(4):
+                                if not isinstance(v_, (ast.Name, ast.Attribute)):
+                                    break
+                                sy2 = ctx.index.resolve_expr(vm_, v_)
+                                if sy2 is None or sy2.kind != "assign" or sy2.module is None or getattr(sy2.node, "value", None) is None:
+                                    break
+                                vm_, v_ = sy2.module, sy2.node.value
+                            if isinstance(v_, (ast.Tuple, ast.List)):
+                                out_ += rows_of(v_, vm_, depth + 1)
+                                continue
+                        out_.append((r_, mod_))
+                    return out_
+                for i, (row, rm) in enumerate(rows_of(node, rm)):
                     site = f"{m.relpath}:{row.lineno} {tab}[{i}]"
                     if not (isinstance(row, ast.Tuple) and len(row.elts) == 2):
                         ctx.undec("R09.1", site, "row is not a (term, metric) pair")
                         continue
-                    ts, fs = ctx.index.resolve_expr(m, row.elts[0]), ctx.index.resolve_expr(m, row.elts[1])
+                    ts, fs = ctx.index.resolve_expr(rm, row.elts[0]), ctx.index.resolve_expr(rm, row.elts[1])
                     if fs is not None and fs.kind == "func":
                         # a metric function that moved to another module keeps the name it has on the reference tree
                         from sa.sym import sym_term
@@ -605,6 +637,12 @@ class C09:
                         return
                     acc.add(t)
                     if isinstance(t[0], str) and t[0] == "comp":
+                        return
+                    if isinstance(t[0], str) and t[0] == "call" and not ((t[1][0] == "global" and t[1][2] == "class") or t[1] in _ROW_WRAPPERS):
+                        return  # what a function computes FROM a list (a mean, a metric) is not a list of rows of the result
+                    if isinstance(t[0], str) and t[0] in ("bin", "cmp", "ite", "and", "or", "not"):
+                        for x in (t[2:] if t[0] == "ite" else ()):
+                            direct(x, acc)
                         return
                     for x in t:
                         if isinstance(x, tuple):
